@@ -1179,8 +1179,10 @@ class URL:
         netloc = self._netloc
         if not encoded:
             path = PATH_QUOTER(path)
-            if netloc:
-                path = normalize_path(path) if "." in path else path
+            if netloc and "." in path:
+                # Root the path first: ".." must not climb above the root
+                # (RFC 3986 section 5.2.4).
+                path = normalize_path(path if path[0] == "/" else f"/{path}")
         if path and path[0] != "/":
             path = f"/{path}"
         query = self._query if keep_query else ""
